@@ -511,6 +511,13 @@ func (fr *Frame) preludeCall(st *State, name string, fn *ssa.Function, args []Va
 		return Val{T: Select(ex.get(st, "CallArg_"+sanitize(constString(cc.Args[0])), ArraySort(SInt, SRef)), args[1].T)}, true
 	case "__callResOf":
 		return Val{T: Select(ex.get(st, "CallRes_"+sanitize(constString(cc.Args[0])), ArraySort(SInt, SRef)), args[1].T)}, true
+	case "__sprintfArg":
+		// the integer a text was formatted from, for a constant format whose only verb is %d (the inverse the
+		// injectivity axiom of that format speaks about; meaningless for other texts)
+		return Val{T: ex.ctx.UF("uf.sprintf.inv", SInt, ex.ctx.StrLit(constString(cc.Args[0])), args[1].T)}, true
+	case "__strFirst":
+		ex.ctx.usesStrFirst = true
+		return Val{T: ex.ctx.UF("str_first", SInt, args[0].T)}, true
 	case "__callResStrOf":
 		return Val{T: Select(ex.get(st, "CallResStr_"+sanitize(constString(cc.Args[0])), ArraySort(SInt, SStr)), args[1].T)}, true
 	case "__callNOf":
